@@ -24,7 +24,9 @@ RULE = ('Options: define (plain / numeric / string with spaces), std (per '
         'language), include_dir, system include_dir, warning all / extra / '
         'error / disable, debug, optimize disable / size / speed / linktime, '
         'pic, pthread, sanitize, static, entry_point, lib, lib_dir + lib, '
-        'pch.  Placements: per-target (compile_options / link_options) and '
+        'pch; special cases: a macro defined twice, two-word flags from the '
+        'environment, -iquote from the environment for a directory also given '
+        'as include_dir, pch in shared and dual-use libraries.  Placements: per-target (compile_options / link_options) and '
         'global (global_options / global_link_options), each with and without '
         'conflicting flags taken from CFLAGS/CPPFLAGS.  Compilers: gcc and '
         'clang for C, g++ and clang++ for C++.  Non-trivial: every '
